@@ -43,7 +43,9 @@ func (h *harness) node(id string) *wbNode {
 		return w
 	}
 	ctx, cancel := context.WithCancel(context.Background())
-	n := netceptor.New(ctx, id)
+	// defaults except the idle timeout: the fake connection never receives, and a connection timed
+	// out by monitorConnectionAging makes forwardMessage drop silently
+	n := netceptor.NewWithConsts(ctx, id, 16384, 10*time.Second, 60*time.Second, time.Hour, 30, 24*time.Hour)
 	w := &wbNode{id: id, n: n, cancel: cancel, events: make(chan event, 256), listeners: map[string]netceptor.PacketConner{}}
 	w.peer, _ = n.VerifAddConn("peer", 1.0, 256)
 	sub := n.GetUnreachableBroker().Subscribe()
@@ -192,6 +194,9 @@ func (w *wbNode) handle(p packet, listening, hops bool) ([]output, string) {
 	var outs []output
 	// (1) forwarded on the connection: synchronous
 	for _, b := range Drain(w.peer) {
+		if os.Getenv("VERIF_C12_DEBUG") != "" {
+			fmt.Fprintf(os.Stderr, "debug %s %+v: peer got %q\n", tag, p, b)
+		}
 		if len(b) == 0 || b[0] != netceptor.MsgTypeData {
 			continue
 		}
@@ -299,6 +304,19 @@ func (h *harness) nodeCase(gs []grule, fns []netceptor.FirewallRuleFunc, want []
 	}
 	r := h.c.Rng
 	self := selfPool[r.Intn(len(selfPool))]
+	// a share of the packets is re-addressed so that this node is their destination (some of them to
+	// its reserved services) or their origin
+	switch x := r.Intn(100); {
+	case x < 14:
+		p.ToNode = self
+	case x < 20:
+		p.ToNode, p.ToService = self, []string{"ping", "unreach"}[r.Intn(2)]
+		if p.FromNode == self {
+			p.FromNode = "b"
+		}
+	case x < 28:
+		p.FromNode = self
+	}
 	listening, hops := true, true
 	if p.ToNode == self {
 		switch {
@@ -352,7 +370,7 @@ func (h *harness) nodeCase(gs []grule, fns []netceptor.FirewallRuleFunc, want []
 	if len(h.im.Samples) < 4 {
 		h.im.Sample(map[string]interface{}{"kind": "node", "case": rec})
 	}
-	return fmt.Sprintf("(%s, %s, (%s, %s), %s)", coqText(self), p.coq(), CoqBool(listening), CoqBool(hops), outsCoq(outs))
+	return fmt.Sprintf("ND %s %s %s %s %s", coqText(self), p.coq(), CoqBool(listening), CoqBool(hops), outsCoq(outs))
 }
 
 func outsCoq(outs []output) string {
@@ -431,7 +449,7 @@ func (h *harness) historyCases() {
 		hcoq := make([]string, k)
 		for j, in := range hist {
 			hrec = append(hrec, map[string]interface{}{"rules": rulesJSON(in.gs), "clearExisting": in.clear})
-			hcoq[j] = "(" + rulesCoq(in.gs) + ", " + CoqBool(in.clear) + ")"
+			hcoq[j] = "HI " + rulesCoq(in.gs) + " " + CoqBool(in.clear)
 		}
 		for x := 0; x < 3; x++ {
 			p := genPkt(eff)
@@ -442,7 +460,7 @@ func (h *harness) historyCases() {
 			if !sameOutputs(outs, exp) {
 				im.Violate(fmt.Sprintf("after the installation history %v node zt lets %v leave for %+v; the rules in force dictate %v", hrec, outs, p, exp), "install-history", rec)
 			}
-			nd = append(nd, "("+p.coq()+", "+outsCoq(outs)+")")
+			nd = append(nd, "PO "+p.coq()+" "+outsCoq(outs))
 		}
 		h.cf.Add(fmt.Sprintf("CHist %s %s %s %s", tableCoq(all...), CoqList(hcoq), coqText("zt"), CoqList(nd)), fmt.Sprintf("history %v", hrec))
 	}
@@ -478,17 +496,28 @@ func (h *harness) historyCases() {
 		}()
 		for x := 0; x < 6; x++ {
 			p := genPkt(append(append([]grule{}, ga...), gb...))
-			outs, _ := w.handle(p, true, true)
-			ea, eb := oracleNode("zt", wa, p), oracleNode("zt", wb, p)
-			rec := map[string]interface{}{"rules_a": rulesJSON(ga), "rules_b": rulesJSON(gb), "packet": p, "observed": fmt.Sprint(outs)}
+			outs, info := w.handle(p, true, true)
+			// the packet is judged by one whole set; the notice it may cause is another packet,
+			// judged by one whole set too (not necessarily the same)
+			var exps [][]output
+			for _, x := range [][]orule{wa, wb} {
+				for _, y := range [][]orule{wa, wb} {
+					exps = append(exps, oracleNode2("zt", x, y, p))
+				}
+			}
+			rec := map[string]interface{}{"rules_a": rulesJSON(ga), "rules_b": rulesJSON(gb), "packet": p, "observed": fmt.Sprint(outs), "call": info}
 			im.Count(fmt.Sprintf("either %v", rec), true)
-			if sameOutputs(ea, eb) {
+			if sameOutputs(exps[0], exps[3]) {
 				im.Hist("replace-under-traffic:sets-agree")
 			} else {
 				im.Hist("replace-under-traffic:sets-differ")
 			}
-			if !sameOutputs(outs, ea) && !sameOutputs(outs, eb) {
-				im.Violate(fmt.Sprintf("while rule sets A and B replace each other node zt lets %v leave for %+v: neither A (%v) nor B (%v)", outs, p, ea, eb), "install-concurrent", rec)
+			ok := false
+			for _, e := range exps {
+				ok = ok || sameOutputs(outs, e)
+			}
+			if !ok {
+				im.Violate(fmt.Sprintf("while rule sets A and B replace each other node zt lets %v leave for %+v: neither set dictates that (A: %v, B: %v)", outs, p, exps[0], exps[3]), "install-concurrent", rec)
 			}
 			h.cf.Add(fmt.Sprintf("CEither %s %s %s %s %s %s", tableCoq(ga, gb), rulesCoq(ga), rulesCoq(gb), coqText("zt"), p.coq(), outsCoq(outs)),
 				fmt.Sprintf("either %v", rec))
@@ -657,7 +686,7 @@ func (h *harness) chainCases() {
 		}
 		nodes := make([]string, 3)
 		for j := range nodes {
-			nodes[j] = "(" + coqText(chainIDs[j]) + ", " + rulesCoq(gss[j]) + ")"
+			nodes[j] = "NR " + coqText(chainIDs[j]) + " " + rulesCoq(gss[j])
 		}
 		o := got
 		if strings.HasPrefix(got, "Notified ") {
